@@ -3,6 +3,7 @@ package mv
 import (
 	"bytes"
 	"encoding/json"
+	"fmt"
 	"os"
 	"testing"
 
@@ -150,6 +151,9 @@ func TestC09(t *testing.T) {
 
 func TestC14(t *testing.T) {
 	Col.SetProp("C14", "case = key set (1-600 keys from four families: tiny alphabet incl. the empty key, numeric, long shared prefix + short suffix, random bytes 0-30) spread over 1-3 persisted segments with overwrites and deletions, optionally fully compacted; the same directory (a copy per option set) is opened with default options (index off: 10 MB threshold) and with 2-6 generated {SegmentKeysIndexMaxBytes in 8..1000/default/off, SegmentKeysIndexMinKeyBytes in 1, total-1, total, total+1, default}; probes = every present key, its neighbours, generated strings, below the first, above the last; for every probe Get, and the ranges [p,nil), [nil,p), [p,q) (full sequence up to 8 entries, else first three + last + count) must equal the reference model under every option set. Non-trivial: a case in which, by the documented formula (estimated from public inputs), an index with >= 2 entries is in use for some segment under some option set. Distinct = distinct case hash.")
+	if os.Getenv("VERIF_TIER") == "thorough" && (os.Getenv("VERIF_SHARD") == "0" || os.Getenv("VERIF_SHARD") == "") {
+		c14Exhaustive(t)
+	}
 	rapid.Check(t, func(rt *rapid.T) {
 		p := genC14(rt)
 		st := RunC14(rt, p)
@@ -345,7 +349,7 @@ func TestC18(t *testing.T) {
 func TestC05(t *testing.T) {
 	spec := &GenSpec{Prop: "C05", Backings: []string{"store"}, Children: exclChildren("C05"), BigBatches: true, Hostile: true, Merge: true}
 	applyExclusions(spec)
-	Col.SetProp("C05", "a generated store-backed workload (batches incl. bulk batches, child collections, hostile keys; persistence rounds; partial / full / idle compactions; drain+reopen; NoSync on or off) runs once under a recording File wrapper -> trace of create/write/sync/unlink with 'batch i executed' and 'round covering prefix k completed' marks. Crash images: for EVERY trace position: the process-kill image (all completed operations applied), the in-flight write torn at 1, every page boundary inside it, len-1 and generated offsets; and, when syncing is on, the power-loss images: writes since the file's last completed sync applied as any subset of 4096-byte block pieces (all 2^n subsets when n <= 10, else extremes + prefixes + generated masks), each with natural and full file length; directory operations ordered and durable. Every distinct image (by content hash) is reopened with default options (a quarter also ReadOnly): the open must succeed without panic and the content must equal the reference after some batch prefix p >= the prefix covered by the last round that completed before the crash point with syncing enabled (NoSync off). evaluations = distinct crash images reopened. Non-trivial: an image taken strictly inside a round or compaction (or with unsynced pieces / a torn write) while an earlier durable round exists. Distinct = distinct image hash within its trace.")
+	Col.SetProp("C05", "a generated store-backed workload (batches incl. bulk batches, child collections, hostile keys; persistence rounds; partial / full / idle compactions; drain+reopen; SnapshotRevert to a snapshot 0-3 steps back (collection closed, reopened afterwards); NoSync on or off) runs once under a recording File wrapper -> trace of create/write/sync/unlink with 'batch i executed' and 'round covering prefix k completed' marks. Crash images: for EVERY trace position: the process-kill image (all completed operations applied), the in-flight write torn at 1, every page boundary inside it, len-1 and generated offsets; and, when syncing is on, the power-loss images: writes since the file's last completed sync applied as any subset of 4096-byte block pieces (all 2^n subsets when n <= 10, else extremes + prefixes + generated masks), each with natural and full file length; directory operations ordered and durable. Every distinct image (by content hash) is reopened with default options (a quarter also ReadOnly): the open must succeed without panic and the content must equal one of the reference states reached so far (after a batch prefix, or a revert target once its revert has started), no older than the prefix covered by the last round that completed before the crash point with syncing enabled (NoSync off). evaluations = distinct crash images reopened. Non-trivial: an image taken strictly inside a round or compaction (or with unsynced pieces / a torn write) while an earlier durable round exists. Distinct = distinct image hash within its trace.")
 	rapid.Check(t, func(rt *rapid.T) {
 		p := genC05(rt, spec)
 		st := RunC05(rt, p)
@@ -486,4 +490,47 @@ func FuzzC19(f *testing.F) {
 		RunHistory(rt, p, o)
 		RunHistory(rt, twin(p), o)
 	}))
+}
+
+
+// c14Exhaustive: bounded exhaustive sweep - every non-empty key set of up to
+// 4 keys over {"", a, aa, ab, b}, as one segment, under every quota 8..64
+// (step 4) with the index forced on, probed with every string over {a,b} of
+// length <= 3 plus the neighbours of the keys.
+func c14Exhaustive(t *testing.T) {
+	alphabet := [][]byte{[]byte(""), []byte("a"), []byte("aa"), []byte("ab"), []byte("b")}
+	var probes [][]byte
+	var rec func(prefix []byte, n int)
+	rec = func(prefix []byte, n int) {
+		probes = append(probes, append([]byte{}, prefix...))
+		if n == 0 {
+			return
+		}
+		for _, c := range []byte{'a', 'b'} {
+			rec(append(append([]byte{}, prefix...), c), n-1)
+		}
+	}
+	rec(nil, 3)
+	cases := 0
+	for mask := 1; mask < 1<<len(alphabet); mask++ {
+		var seg []KV
+		for i, k := range alphabet {
+			if mask&(1<<i) != 0 {
+				seg = append(seg, KV{Op: OpSet, K: k, V: []byte(fmt.Sprintf("v%d", i))})
+			}
+		}
+		if len(seg) > 4 {
+			continue
+		}
+		c := C14Case{Segments: [][]KV{seg}, Probes: probes}
+		for q := 8; q <= 64; q += 4 {
+			c.Opts = append(c.Opts, [2]int{q, 1})
+		}
+		b, _ := json.Marshal(&c)
+		p := &Program{Prop: "C14", Cfg: Config{Backing: "store"}, Extra: b}
+		st := RunC14(t, p)
+		cases++
+		Col.AddExtra("exhaustive_subrun_option_sets", st.optionSets)
+	}
+	Col.AddExtra("exhaustive_subrun_key_sets", cases)
 }
